@@ -50,7 +50,11 @@ finally:
     subprocess.run(["git", "checkout", "--", "evidence"], cwd=root, capture_output=True)
 mp = os.path.join(dst, "meta.json")
 meta = json.load(open(mp)) if os.path.exists(mp) else {}
+old_checks = dict(meta.get("verification", {}).get("checks", {}))
 meta.setdefault("verification", {}).update(ver)
+# results of checks evaluated in earlier calls are kept (a later call re-evaluates only the checks it names)
+for c, v in old_checks.items():
+    meta["verification"]["checks"].setdefault(c, v)
 meta["verification"]["caught_by"] = sorted(c for c, v in meta["verification"]["checks"].items() if v["exit"] == 1)
 json.dump(meta, open(mp, "w"), indent=1)
 print(name, "tests:", ver.get("repo_tests"), "demo repo/changed:", ver.get("demo_on_repo_exit"), ver.get("demo_on_changed_exit"), "caught_by:", meta["verification"]["caught_by"])
